@@ -53,6 +53,7 @@ def run(ctx):
                           Nr = utils.quat_null_space(An, 'right'); Nl = utils.quat_null_left(An)
                           _, s, _ = qsvd.classical_qsvd_full(An)
                       except Exception as e: viol(f'C11:raises{suf}', f'rank / null space raised {e!r}', inp); continue
+                      if not cm.all_finite(Nr, Nl, s): viol(f'C11:nonfinite{suf}', 'null space / singular values contain NaN / inf', inp); continue
                       if rr != rk: viol(f'C11:rank{suf}', f'rank {rr} != true rank {rk}', inp, rr, rk)
                       if rh != rr: viol(f'C11:rank:herm{suf}', 'rank(A^H) != rank(A)', inp, rh, rr)
                       rreal = int(np.linalg.matrix_rank(utils.real_expand(An)))
@@ -74,6 +75,20 @@ def run(ctx):
                       if all(abs(float(v) - tol) > 0.5 * tol for v in s) and all(abs(float(v) - 1e-10 * smax) > 0.5e-10 * smax or smax == 0 for v in s):
                           rterms.append(f'({m}%nat, {n}%nat, [' + '; '.join(Ql(Fraction(float(v))) for v in s) + f'], {rr}%nat, {Ql(Fraction(1, 10 ** 10))}, {n - Nr.shape[1]}%nat)')
                       else: ctx.cov['discarded'] += 1
+    # strongly non-square matrices with a singular value between eps*min(m,n)*smax and eps*max(m,n)*smax: the documented threshold is eps*max(m,n)*smax
+    epsf = Fraction(np.finfo(float).eps)
+    for (m, n) in ((2, 24), (24, 2), (3, 32)) if ctx.quick() else ((2, 24), (24, 2), (3, 32), (32, 3), (2, 48)):
+        r = min(m, n); sv = [Fraction(1)] * (r - 1) + [epsf * Fraction(max(m, n) + 3 * r, 4)]
+        sv = [Fraction(r - i) for i in range(r - 1)] + [sv[-1]]
+        A, _, _ = spectral_problem(rng, m, n, sv); An = qx.to_np(A)
+        inp = {'shape': [m, n], 'singular_values': [str(x) for x in sv], 'note': 'smallest value is below eps*max(m,n)*smax and above eps*min(m,n)*smax'}
+        _, s, _ = qsvd.classical_qsvd_full(An); smax = float(max(s)); thr = np.finfo(float).eps * max(m, n) * smax
+        want = int(sum(1 for v in s if v > thr)); rr = utils.rank(An)
+        if abs(float(s[-1]) - thr) > 0.3 * thr:
+            if rr != want: viol('C11:rank:threshold:non-square', f'rank {rr} is not the number of singular values above eps*max(m,n)*max s ({want})', inp, rr, want)
+            rterms.append(f'({m}%nat, {n}%nat, [' + '; '.join(Ql(Fraction(float(v))) for v in s) + f'], {rr}%nat, {Ql(Fraction(1, 10 ** 10))}, {n - utils.quat_null_space(An, "right").shape[1]}%nat)')
+        else: ctx.cov['discarded'] += 1
+        ctx.count(('rank-threshold', m, n), True)
     # determinants
     for n in range(1, (4 if ctx.quick() else 6)):
         for rep in range(3):
